@@ -17,6 +17,7 @@ RULE = ("seeded pairs of same-dtype arrays (int8..uint64 incl. values near the t
 TRUSTED = ["python dict / collections.Counter", "numpy element comparison and tolist()"]
 ASSUMPTIONS = ["both arrays have the same dtype, or (family match-mixed) the same kind and signedness with different widths (U2/U5, S3/S8, i2/i8, u1/u8, f4/f8) in either direction; signed and unsigned are not mixed; no NaN; no empty input",
                "presorted=True is only passed with a sorted first array"]
+THOROUGH_ROUNDS = 2      # the thorough tier runs the generator over this many derived seeds
 REQUIRED = {"quick": {"C06.match": 2000, "C06.unique": 500, "C06.rem_dup": 500},
             "thorough": {"C06.match": 50000, "C06.unique": 12000, "C06.rem_dup": 12000}}
 FAMS = ["match-int", "match-float", "match-str", "match-scalar", "match-repeat1", "unique", "rem_dup", "match-mixed"]
